@@ -132,7 +132,7 @@ def _instrument():
     import coba.pipes.multiprocessing as M
     import coba.pipes.lines as L
     return instrument([M.Multiprocessor.filter, M.Stopper.stop, M.Stopper.filter, L.ProcessLine.start, L.ProcessLine.join,
-                       L.ProcessLine._get_result, L.ThreadLine.start, L.ThreadLine.run])
+                       L.ProcessLine._get_result, L.ThreadLine.start, L.ThreadLine.run, M.MyProcessLine.start, M.UniqueKey.__init__])
 
 
 def _sig(sim):
@@ -212,7 +212,15 @@ class C08:
                       "p_stay": weighted(rng, [(0.0, 2), (0.5, 2), (0.9, 1)]),
                       "slow_main": rng.random() < 0.25, "log_lines": coba_mp and rng.random() < 0.7,
                       # bytecode-level pre-emption of the parent's threads (callbacks, loader, consumer) at planned opcode counts
-                      "opcode_plan": sorted(rng.randrange(1, 700) for _ in range(1 + rng.randrange(4))) if rng.random() < 0.35 else None},
+                      "opcode_plan": sorted(rng.randrange(1, 700) for _ in range(1 + rng.randrange(4))) if rng.random() < 0.2 else None,
+                      # ... and at the k-th bytecode of the n-th invocation of a chosen function (hits short critical sections far more often)
+                      "opcode_points": [[weighted(rng, [("filter_finished_or_failed", 4), ("loader_finished_or_failed", 1), ("__init__", 3), ("start", 2),
+                                                        ("stop", 1), ("join_and_call", 1), ("_get_result", 1), ("filter", 1), ("run", 1)]),
+                                         1 + rng.randrange(6), rng.randrange(0, weighted(rng, [(12, 2), (40, 2), (120, 1)]))]
+                                        for _ in range(1 + rng.randrange(5))] if rng.random() < 0.3 else None,
+                      # dense mode: every bytecode of two consecutive invocations of one function is a pre-emption point
+                      "opcode_dense": [weighted(rng, [("filter_finished_or_failed", 4), ("__init__", 3), ("start", 2), ("loader_finished_or_failed", 1),
+                                                      ("join_and_call", 1), ("_get_result", 1), ("stop", 1)]), 1 + rng.randrange(8)] if rng.random() < 0.12 else None},
         }
 
     # ------------------------------------------------------------------ one simulated run
@@ -228,6 +236,11 @@ class C08:
         _instrument()
         if kn.get("opcode_plan"):
             sim.opcode_plan = list(kn["opcode_plan"])
+        if kn.get("opcode_points"):
+            sim.opcode_points = {tuple(p) for p in kn["opcode_points"]}
+        if kn.get("opcode_dense"):
+            f_, k_ = kn["opcode_dense"]
+            sim.opcode_points = (sim.opcode_points or set()) | {(f_, k_ + d, o) for d in (0, 1) for o in range(0, 160)}
         if kn["slow_main"]:
             sim.slow_bias = 0.7
         log_sink = ListSinkH()
@@ -361,6 +374,14 @@ class C08:
         for flag in ("read_wait", "coba_mp"):
             if cfg[flag]:
                 c = copy.deepcopy(cfg); c[flag] = False; c["knobs"]["log_lines"] = False; yield c
+        if cfg["knobs"].get("opcode_dense"):
+            c = copy.deepcopy(cfg); c["knobs"]["opcode_dense"] = None; yield c
+        if cfg["knobs"].get("opcode_points"):
+            pts = cfg["knobs"]["opcode_points"]
+            c = copy.deepcopy(cfg); c["knobs"]["opcode_points"] = None; yield c
+            for i in range(len(pts)):
+                if len(pts) > 1:
+                    c = copy.deepcopy(cfg); c["knobs"]["opcode_points"] = pts[:i] + pts[i + 1:]; yield c
         if cfg["knobs"].get("opcode_plan"):
             pl = cfg["knobs"]["opcode_plan"]
             c = copy.deepcopy(cfg); c["knobs"]["opcode_plan"] = None; yield c
